@@ -21,7 +21,7 @@ Open Scope Z_scope.
    shared mutable state: every call returns its sequential value under every schedule, whatever
    the cache variant (duplicated work, never a wrong or failed call) *)
 Theorem memo_schedule_independent :
-  forall cfg f conv, conv_correct f conv -> memo_clear_bound cfg = None -> todense_fresh cfg = true ->
+  forall cfg f conv, conv_correct f conv -> memo_clear_bound cfg = None -> buffers_fresh cfg = true ->
   forall sched ops progs c r,
     In (c, r) (all_outputs (run cfg f conv sched (init ops progs))) ->
     is_cache_call c = false -> r = Ok (f (ckey c)).
@@ -40,7 +40,7 @@ Print Assumptions cache_schedule_independent.
 
 (* the same for ANY configuration whose lookup loops iterate a snapshot (one C call) *)
 Theorem cache_snapshot_schedule_independent :
-  forall cfg f conv, conv_correct f conv -> memo_clear_bound cfg = None -> todense_fresh cfg = true ->
+  forall cfg f conv, conv_correct f conv -> memo_clear_bound cfg = None -> buffers_fresh cfg = true ->
   forall sched ops progs c r,
     all_snapshot cfg = true ->
     In (c, r) (all_outputs (run cfg f conv sched (init ops progs))) -> r = Ok (f (ckey c)).
@@ -51,7 +51,7 @@ Print Assumptions cache_snapshot_schedule_independent.
    RuntimeError raised by a transpose/reshape lookup on a cache-enabled array — never a wrong value,
    never another error *)
 Theorem cache_only_failure_is_deque_race :
-  forall cfg f conv, conv_correct f conv -> memo_clear_bound cfg = None -> todense_fresh cfg = true ->
+  forall cfg f conv, conv_correct f conv -> memo_clear_bound cfg = None -> buffers_fresh cfg = true ->
   forall sched ops progs c r,
     In (c, r) (all_outputs (run cfg f conv sched (init ops progs))) ->
     r = Ok (f (ckey c)) \/
@@ -99,7 +99,7 @@ Print Assumptions coarse_schedules_are_schedules.
    in place into the dense results they were handed: those results are private buffers.  (That the kernels
    themselves only read their operands is C11's theorem.) *)
 Theorem operands_unchanged_any_schedule :
-  forall cfg f conv, conv_correct f conv -> memo_clear_bound cfg = None -> todense_fresh cfg = true ->
+  forall cfg f conv, conv_correct f conv -> memo_clear_bound cfg = None -> buffers_fresh cfg = true ->
   forall sched ops progs, operands (fst (run cfg f conv sched (init ops progs))) = ops.
 Proof. exact run_operands. Qed.
 Print Assumptions operands_unchanged_any_schedule.
@@ -108,8 +108,8 @@ Print Assumptions operands_unchanged_any_schedule.
    maybe_densify / __array__ return what todense returns.  With a todense that may return a view of the
    operand's data, a thread's in-place write to ITS OWN result reaches the shared operand: *)
 Theorem results_are_private :
-  todense_fresh src_config = true /\
-  forall cfg f conv, todense_fresh cfg = false ->
+  buffers_fresh src_config = true /\
+  forall cfg f conv, buffers_fresh cfg = false ->
     exists progs sched, operands (fst (run cfg f conv sched (init [7] progs))) <> [7].
 Proof. exact (conj (proj1 (proj2 (proj2 (proj2 (proj2 src_shapes_modelled))))) view_write_reaches_operands). Qed.
 Print Assumptions results_are_private.
